@@ -29,3 +29,4 @@ import MicroHttp.Props.Tables
 #print axioms MicroHttp.Tables.media_tryFrom
 #print axioms MicroHttp.Tables.no_shared_state
 #print axioms MicroHttp.Tables.no_interior_mutability
+#print axioms MicroHttp.Tables.headers_fields
